@@ -40,19 +40,19 @@ type CCase struct {
 
 // HOp is one recorded sub-operation (multi-key calls are split per key, sharing the stamps).
 type HOp struct {
-	Thread int    `json:"t"`
-	Kind   string `json:"k"` // create get put cas delete mget mput
-	Key    string `json:"key"`
-	Val    string `json:"val,omitempty"` // value written
-	Arg    string `json:"arg,omitempty"` // version argument of cas / version passed in the record
-	Call   int64  `json:"call"`
-	Ret    int64  `json:"ret"`
-	Err    string `json:"err,omitempty"` // "" nil, exist, notexist, conflict, other:<text>
-	Ver    string `json:"ver,omitempty"` // version returned / read
-	Read   string `json:"read,omitempty"`
-	Found  bool   `json:"found,omitempty"` // mget: record present
-	Repeated bool `json:"repeated,omitempty"` // mput: the key occurs more than once in this batch
-	Last     bool `json:"last,omitempty"`     // mput: this is the last record of the key in the batch
+	Thread   int    `json:"t"`
+	Kind     string `json:"k"` // create get put cas delete mget mput
+	Key      string `json:"key"`
+	Val      string `json:"val,omitempty"` // value written
+	Arg      string `json:"arg,omitempty"` // version argument of cas / version passed in the record
+	Call     int64  `json:"call"`
+	Ret      int64  `json:"ret"`
+	Err      string `json:"err,omitempty"` // "" nil, exist, notexist, conflict, other:<text>
+	Ver      string `json:"ver,omitempty"` // version returned / read
+	Read     string `json:"read,omitempty"`
+	Found    bool   `json:"found,omitempty"`    // mget: record present
+	Repeated bool   `json:"repeated,omitempty"` // mput: the key occurs more than once in this batch
+	Last     bool   `json:"last,omitempty"`     // mput: this is the last record of the key in the batch
 }
 
 func firstOf(keys []string, k string) int {
